@@ -104,60 +104,68 @@ theorem C11_u64_foreign (s : Bytes) (h : ∃ b ∈ s, Foreign [43] b) : ∃ e, t
 example : ∃ b ∈ ([49, 44, 50] : Bytes), Foreign [43] b := ⟨44, by decide, by decide, by decide⟩
 
 /-- **to_i64 is exact, complete and refusing**: it returns `v` exactly for the decimal
-renderings (optional `+` or `-`, digits; bare `"+"` / `"-"` are 0) of the values
-`-(2^63-1) ..= 2^63-1`; everything else — including `i64::MIN` — is an error. -/
+renderings (optional `+` or `-`, digits, leading zeros allowed; bare `"+"` / `"-"` are 0) of
+the values `i64::MIN ..= i64::MAX` = `-2^63 ..= 2^63-1`; everything else is an error.  The
+rendering ties the sign to the value, so `"-9223372036854775808"` is `-2^63` (converts) and
+`"9223372036854775808"` is `2^63` (refused). -/
 theorem C11_i64 (s : Bytes) (v : Int) :
-    toI64 s = .ok v ↔ IsI64Rendering s v ∧ v.natAbs ≤ 2^63 - 1 := by
+    toI64 s = .ok v ↔ IsI64Rendering s v ∧ -2^63 ≤ v ∧ v ≤ 2^63 - 1 := by
   rw [toI64_ok_iff]
   have h0 : (0 : Nat) ≤ U64_MAX := by simp [U64_MAX]
   constructor
-  · rintro ⟨c, data, n, rfl, hn, h | h | h⟩
-    · obtain ⟨hc, h, rfl⟩ := h
+  · rintro ⟨c, data, n, rfl, h | h | h⟩
+    · obtain ⟨hc, h, hn, rfl⟩ := h
       rw [toU64T2_ok_nil _ _ _ (digitVal_le c)] at h
       obtain ⟨hd, hv, -⟩ := h
       refine ⟨⟨c :: data, ?_, Or.inl ⟨rfl, by simp, ?_⟩⟩, ?_⟩
       · simp [allDigits_cons, hc, hd]
       · rw [decVal_cons, hv]
-      · simpa [I64_MAX] using hn
-    · obtain ⟨rfl, h, rfl⟩ := h
+      · simp only [I64_MAX] at hn; omega
+    · obtain ⟨rfl, h, hn, rfl⟩ := h
       rw [toU64T2_ok_nil _ _ _ h0] at h
       obtain ⟨hd, hv, -⟩ := h
       refine ⟨⟨data, hd, Or.inr (Or.inr ⟨rfl, ?_⟩)⟩, ?_⟩
       · rw [hv]; rfl
-      · simpa [I64_MAX] using hn
-    · obtain ⟨rfl, h, rfl⟩ := h
+      · simp only [I64_MIN_ABS] at hn; omega
+    · obtain ⟨rfl, h, hn, rfl⟩ := h
       rw [toU64T2_ok_nil _ _ _ h0] at h
       obtain ⟨hd, hv, -⟩ := h
       refine ⟨⟨data, hd, Or.inr (Or.inl ⟨rfl, ?_⟩)⟩, ?_⟩
       · rw [hv]; rfl
-      · simpa [I64_MAX] using hn
-  · rintro ⟨⟨body, hd, h | h | h⟩, hle⟩
+      · simp only [I64_MAX] at hn; omega
+  · rintro ⟨⟨body, hd, h | h | h⟩, hlo, hhi⟩
     · obtain ⟨rfl, hne, rfl⟩ := h
       cases s with
       | nil => exact absurd rfl hne
       | cons c data =>
         rw [allDigits_cons] at hd
-        have hle' : decVal (c :: data) ≤ I64_MAX := by simpa [I64_MAX] using hle
-        refine ⟨c, data, decVal (c :: data), rfl, hle', Or.inl ⟨hd.1, ?_, rfl⟩⟩
+        have hle' : decVal (c :: data) ≤ I64_MAX := by simp only [I64_MAX]; omega
+        refine ⟨c, data, decVal (c :: data), rfl, Or.inl ⟨hd.1, ?_, hle', rfl⟩⟩
         rw [toU64T2_ok_nil _ _ _ (digitVal_le c)]
         exact ⟨hd.2, decVal_cons c data, by simp only [I64_MAX, U64_MAX] at *; omega⟩
     · obtain ⟨rfl, rfl⟩ := h
-      have hle' : decVal body ≤ I64_MAX := by simpa [I64_MAX] using hle
-      refine ⟨43, body, decVal body, rfl, hle', Or.inr (Or.inr ⟨rfl, ?_, rfl⟩)⟩
+      have hle' : decVal body ≤ I64_MAX := by simp only [I64_MAX]; omega
+      refine ⟨43, body, decVal body, rfl, Or.inr (Or.inr ⟨rfl, ?_, hle', rfl⟩)⟩
       rw [toU64T2_ok_nil _ _ _ h0]
       exact ⟨hd, rfl, by simp only [I64_MAX, U64_MAX] at *; omega⟩
     · obtain ⟨rfl, rfl⟩ := h
-      have hle' : decVal body ≤ I64_MAX := by simpa [I64_MAX] using hle
-      refine ⟨45, body, decVal body, rfl, hle', Or.inr (Or.inl ⟨rfl, ?_, rfl⟩)⟩
+      have hle' : decVal body ≤ I64_MIN_ABS := by simp only [I64_MIN_ABS]; omega
+      refine ⟨45, body, decVal body, rfl, Or.inr (Or.inl ⟨rfl, ?_, hle', rfl⟩)⟩
       rw [toU64T2_ok_nil _ _ _ h0]
-      exact ⟨hd, rfl, by simp only [I64_MAX, U64_MAX] at *; omega⟩
+      exact ⟨hd, rfl, by simp only [I64_MIN_ABS, U64_MAX] at *; omega⟩
 
-example : IsI64Rendering [45, 48, 52, 50] (-42) ∧ (-42 : Int).natAbs ≤ 2^63 - 1 :=
-  ⟨⟨[48, 52, 50], by decide, Or.inr (Or.inr ⟨rfl, by decide⟩)⟩, by decide⟩
+example : IsI64Rendering [45, 48, 52, 50] (-42) ∧ -2^63 ≤ (-42 : Int) ∧ (-42 : Int) ≤ 2^63 - 1 :=
+  ⟨⟨[48, 52, 50], by decide, Or.inr (Or.inr ⟨rfl, by decide⟩)⟩, by decide, by decide⟩
 example : toI64 [45] = .ok 0 := by rfl   -- the quirk: bare "-"
+example : toI64 [45, 48, 48] = .ok 0 := by rfl   -- "-00" is 0
+-- "-9223372036854775808" (i64::MIN) converts, "-09223372036854775808" too
+example : toI64 [45,57,50,50,51,51,55,50,48,51,54,56,53,52,55,55,53,56,48,56] = .ok (-9223372036854775808) := by rfl
+example : toI64 [45,48,57,50,50,51,51,55,50,48,51,54,56,53,52,55,55,53,56,48,56] = .ok (-9223372036854775808) := by rfl
 
-/-- a rendering of a value outside `-(2^63-1) ..= 2^63-1` is refused with `Overflow`. -/
-theorem C11_i64_out_of_range (s : Bytes) (v : Int) (h : IsI64Rendering s v) (hv : v.natAbs > 2^63 - 1) :
+/-- a rendering of a value outside `i64::MIN ..= i64::MAX` is refused with `Overflow`
+(never wrapped, never saturated). -/
+theorem C11_i64_out_of_range (s : Bytes) (v : Int) (h : IsI64Rendering s v)
+    (hv : v < -2^63 ∨ v > 2^63 - 1) :
     toI64 s = .error .overflow := by
   have h0 : (0 : Nat) ≤ U64_MAX := by simp [U64_MAX]
   obtain ⟨body, hd, h | h | h⟩ := h
@@ -166,24 +174,25 @@ theorem C11_i64_out_of_range (s : Bytes) (v : Int) (h : IsI64Rendering s v) (hv 
     | nil => exact absurd rfl hne
     | cons c data =>
       rw [allDigits_cons] at hd
-      have : decFrom data (digitVal c) > I64_MAX := by
-        rw [← decVal_cons]; simp only [I64_MAX]; omega
+      have : decFrom data (digitVal c) > signLimit 1 := by
+        rw [← decVal_cons, signLimit_one]; omega
       simp only [toI64, toI64T, hd.1, if_true]
       exact toI64Go_overflow data 1 _ hd.2 (digitVal_le c) this
   · obtain ⟨rfl, rfl⟩ := h
-    have : decFrom body 0 > I64_MAX := by
-      simp only [I64_MAX]; simp only [decVal] at hv; omega
+    have : decFrom body 0 > signLimit 1 := by
+      rw [signLimit_one]; simp only [decVal] at hv; omega
     simp only [toI64, toI64T, not_isDigit_43, show ((43 : UInt8) == 45) = false by decide,
       beq_self_eq_true, Bool.false_eq_true, if_false, if_true]
     exact toI64Go_overflow body 1 0 hd h0 this
   · obtain ⟨rfl, rfl⟩ := h
-    have : decFrom body 0 > I64_MAX := by
-      simp only [I64_MAX]; simp only [decVal] at hv; omega
+    have : decFrom body 0 > signLimit (-1) := by
+      rw [signLimit_neg_one]; simp only [decVal] at hv; omega
     simp only [toI64, toI64T, not_isDigit_45, beq_self_eq_true, Bool.false_eq_true, if_false, if_true]
     exact toI64Go_overflow body (-1) 0 hd h0 this
 
--- -2^63 = -9223372036854775808 (i64::MIN) is refused
-example : toI64 [45,57,50,50,51,51,55,50,48,51,54,56,53,52,55,55,53,56,48,56] = .error .overflow := by rfl
+-- "-9223372036854775809" and "9223372036854775808" are refused
+example : toI64 [45,57,50,50,51,51,55,50,48,51,54,56,53,52,55,55,53,56,48,57] = .error .overflow := by rfl
+example : toI64 [57,50,50,51,51,55,50,48,51,54,56,53,52,55,55,53,56,48,56] = .error .overflow := by rfl
 
 /-- a string with a byte that is neither a digit nor a sign is refused. -/
 theorem C11_i64_foreign (s : Bytes) (h : ∃ b ∈ s, Foreign [43, 45] b) : ∃ e, toI64 s = .error e := by
@@ -202,5 +211,118 @@ theorem C11_i64_foreign (s : Bytes) (h : ∃ b ∈ s, Foreign [43, 45] b) : ∃ 
     · rcases List.mem_cons.1 hb with rfl | hb
       · simp at hns
       · simp [hbody b hb] at hnd
+
+/-! ### `to_f64` -/
+
+/-- **C11_f64_shape — the exact grammar of `to_f64`** (an iff, so nothing is hidden): a
+string converts exactly when it is `["-"] head` with the integer digits at most `2^53-1`,
+or `["-"] head "." f` with `1..=22` fraction digits and all digits fitting a `u64`; `head`
+is digits, or `+` then digits (possibly none), or — only in front of the point — nothing.
+See `F64Accepts` for the quirks (`"+"` → 0, `"-+5"` → -5, `".5"`, no `"1."`, …). -/
+theorem C11_f64_shape (s : Bytes) :
+    (∃ v, toF64 s = .ok v) ↔ ∃ neg ip fp, F64Accepts s neg ip fp := by
+  constructor
+  · rintro ⟨v, h⟩
+    obtain ⟨neg, ip, fp, ha, -⟩ := (toF64_ok_iff s v).1 h
+    exact ⟨neg, ip, fp, ha⟩
+  · rintro ⟨neg, ip, fp, ha⟩
+    exact ⟨_, (toF64_ok_iff s _).2 ⟨neg, ip, fp, ha, rfl⟩⟩
+
+/-- the same with the value: `val as f64` for integers, `sign * ((digits as f64) / 10^k)`
+(two roundings) for decimals. -/
+theorem C11_f64_value (s : Bytes) (v : Nat) :
+    toF64 s = .ok v ↔ ∃ neg ip fp, F64Accepts s neg ip fp ∧ v = f64Value neg ip fp :=
+  toF64_ok_iff s v
+
+-- "-+5" is accepted (sign quirk), "1." and "+-5" are not
+example : F64Accepts [45, 43, 53] true [53] none := ⟨[43, 53], ⟨by decide, Or.inr rfl⟩, rfl, by decide, by decide⟩
+example : toF64 [49, 46] = .error .overflow := by rfl
+example : toF64 [43, 45, 53] = .error .allDigits := by rfl
+-- ".5" = 0.5 = 0x3FE0000000000000
+example : toF64 [46, 53] = .ok 0x3FE0000000000000 := by rfl
+
+/-- **binary64 holds every integer below `2^53` exactly** (`n as f64` decodes back to `n`). -/
+theorem C11_u64ToF64_exact (n : Nat) (h : n < 2 ^ 53) : decodeMag (u64ToF64 n) = n :=
+  u64ToF64_exact n h
+
+example : decodeMag (u64ToF64 9007199254740991) = 9007199254740991 := by decide +kernel
+
+/-- **correctly rounded below `2^53`**: when the digits taken as one integer `N` are below
+`2^53` (and there are `k = |f| ≤ 22` fraction digits, which `F64Accepts` requires), the
+result is `sign · RNE(N / 10^k)` — one rounding of the exact quotient, since `N as f64`
+is exact and `10^k` is exact for `k ≤ 22`. -/
+theorem C11_f64_correctly_rounded (s : Bytes) (neg : Bool) (ip f : Bytes)
+    (ha : F64Accepts s neg ip (some f)) (hN : decVal (ip ++ f) < 2 ^ 53) :
+    toF64 s = .ok (signed neg (rneBits (decVal (ip ++ f)) (10 ^ f.length))) := by
+  rw [toF64_ok_iff]
+  refine ⟨neg, ip, some f, ha, ?_⟩
+  simp only [f64Value, fracVal, signed, u64ToF64_exact _ hN]
+
+example : F64Accepts [49, 46, 53] false [49] (some [53]) :=
+  ⟨[49], ⟨by decide, Or.inl rfl⟩, rfl, by decide, by decide, by decide, by decide⟩
+
+/-- **integers are exact or refused**: an accepted string without a decimal point is a plain
+integer `N ≤ 2^53 - 1`; the result is `± (N as f64)`, which represents `N` exactly. -/
+theorem C11_f64_integers_exact_or_refused (s : Bytes) (v : Nat) (hdot : 46 ∉ s) (h : toF64 s = .ok v) :
+    ∃ neg ip, F64Accepts s neg ip none ∧ decVal ip ≤ 2 ^ 53 - 1 ∧
+      v = (if neg then (if decVal ip = 0 then 0 else signBit + u64ToF64 (decVal ip)) else u64ToF64 (decVal ip)) ∧
+      decodeMag (u64ToF64 (decVal ip)) = decVal ip := by
+  obtain ⟨neg, ip, fp, ha, hv⟩ := (toF64_ok_iff s v).1 h
+  cases fp with
+  | some f => exact absurd (accepts_some_has_dot s neg ip f ha) hdot
+  | none =>
+    have hle : decVal ip ≤ 2 ^ 53 - 1 := by
+      obtain ⟨hd, -, -, -, hle⟩ := ha; exact hle
+    exact ⟨neg, ip, ha, hle, by simpa [f64Value, intVal] using hv, u64ToF64_exact _ (by omega)⟩
+
+/-- a plain integer rendering above `2^53 - 1` is refused (`PrecisionLoss`, or `Overflow`
+when it does not even fit the 64-bit accumulator / `i64`). -/
+theorem C11_f64_big_integer_refused (neg : Bool) (hd ip : Bytes) (hh : IsF64Head hd ip) (hne : hd ≠ [])
+    (hbig : decVal ip > 2 ^ 53 - 1) :
+    toF64 ((if neg then [45] else []) ++ hd) = .error .precisionLoss ∨
+    toF64 ((if neg then [45] else []) ++ hd) = .error .overflow :=
+  toF64_big_integer_refused neg hd ip hh hne hbig
+
+-- 2^53 = 9007199254740992 is refused although binary64 holds it: the guard is `> 2^53 - 1`
+example : toF64 [57,48,48,55,49,57,57,50,53,52,55,52,48,57,57,50] = .error .precisionLoss := by rfl
+
+/-- **never NaN or infinity**: the exponent field of every result of `to_f64` is at most
+1088 (|value| < 2^66), so it is never 2047.  For decimals this is the bound on the exponent
+of the two roundings `(i as f64) / 10^k` with `i` a `u64` and `k ≤ 22` (`rneBits_lt`). -/
+theorem C11_f64_finite (s : Bytes) (v : Nat) (h : toF64 s = .ok v) : expField v ≠ 2047 := by
+  obtain ⟨neg, ip, fp, ha, hv⟩ := (toF64_ok_iff s v).1 h
+  subst hv
+  cases fp with
+  | none =>
+    have hle : decVal ip ≤ 2 ^ 53 - 1 := by obtain ⟨hd, -, -, -, hle⟩ := ha; exact hle
+    have := expField_u64ToF64_small (decVal ip) (by omega)
+    simp only [f64Value, intVal]
+    cases neg
+    · simp only [Bool.false_eq_true, if_false]; omega
+    · by_cases h0 : decVal ip = 0
+      · simp only [h0, if_true]; decide
+      · simp only [h0, if_false, if_true]; omega
+  | some f =>
+    obtain ⟨hd, -, -, -, -, hk, hle⟩ := ha
+    have := expField_fracVal neg (decVal (ip ++ f)) f.length hle hk
+    simp only [f64Value]; omega
+
+example : ∃ v, toF64 [46, 53] = .ok v := ⟨_, rfl⟩
+
+/-
+C11_f64_two_ulp, full statement (NOT proved; growth theorem of DESIGN.md):
+
+  theorem C11_f64_two_ulp (s : Bytes) (neg : Bool) (ip f : Bytes)
+      (ha : F64Accepts s neg ip (some f)) (hN : 2 ^ 53 ≤ decVal (ip ++ f)) :
+      ∃ v, toF64 s = .ok v ∧
+        ulpDistance v (signed neg (rneBits (decVal (ip ++ f)) (10 ^ f.length))) ≤ 2
+
+covered by the correspondence run (the model computes the exact two-rounding result) and by
+the harness oracle `f64-beyond-2ulp` against Rust's correctly rounded `str::parse::<f64>`.
+Missing: the relative-error analysis of two successive roundings (needs `rneBits` within
+half an ulp of the exact quotient, then the composition).
+-/
+
+example : toF64 [45, 49, 50] = .ok 0xC028000000000000 := by rfl   -- "-12" = -12.0
 
 end Jomini.Props.C11
